@@ -50,9 +50,30 @@ def _run(cmd, cwd=None, timeout=3600):
     return p.returncode, p.stdout
 
 
+@contextlib.contextmanager
+def lake_lock():
+    """Serialise `lake build` between checks that run at the same time (several ./check processes started from a
+    fresh restore would otherwise build the same .lake directory concurrently and can leave half-written object
+    files behind, after which the driver no longer links)."""
+    import fcntl
+    f = open(LEAN_DIR / '.lake.lock', 'w')
+    try:
+        fcntl.flock(f, fcntl.LOCK_EX)
+        yield
+    finally:
+        fcntl.flock(f, fcntl.LOCK_UN)
+        f.close()
+
+
 def ensure_built():
     """Build library + driver if needed (fresh restore: .lake is absent)."""
-    rc, out = _run(['lake', 'build', 'phyverif'], cwd=LEAN_DIR)
+    with lake_lock():
+        rc, out = _run(['lake', 'build', 'phyverif'], cwd=LEAN_DIR)
+        if rc != 0 and 'undefined symbol' in out:
+            # object files left incomplete by an interrupted / concurrent earlier build: rebuild the native part
+            shutil.rmtree(LEAN_DIR / '.lake' / 'build' / 'ir', ignore_errors=True)
+            shutil.rmtree(LEAN_DIR / '.lake' / 'build' / 'bin', ignore_errors=True)
+            rc, out = _run(['lake', 'build', 'phyverif'], cwd=LEAN_DIR)
     if rc != 0 or not DRIVER.exists():
         raise Infra('cannot build the Lean driver:\n' + out[-4000:])
 
@@ -129,7 +150,8 @@ def proof_step(pid, tier):
     t0 = time.time()
     res = dict(obligations=0, discharged=0, failed=[], log='', theorems=[], axioms={})
     mod = 'PhyVerif.Props.%s' % pid
-    rc, out = _run(['lake', 'build', mod], cwd=LEAN_DIR)
+    with lake_lock():
+        rc, out = _run(['lake', 'build', mod], cwd=LEAN_DIR)
     names = theorems_of(pid)
     res['theorems'] = names
     res['obligations'] = len(names)
